@@ -22,6 +22,16 @@ use trie_rs::{Trie, TrieBuilder};
 use crate::core::error::MonorailError;
 use tracing::error;
 
+// Returns true if `prefix` is `path` itself or one of its parent directories. Tries match
+// on raw bytes, so their results are filtered with this to compare whole path components;
+// e.g. "app" is a prefix of "app/src/main.rs", but not of "app2/src/main.rs".
+pub(crate) fn is_path_prefix(prefix: &str, path: &str) -> bool {
+    match path.strip_prefix(prefix) {
+        Some(rest) => rest.is_empty() || rest.starts_with('/') || prefix.ends_with('/'),
+        None => false,
+    }
+}
+
 #[derive(Hash, Debug, Clone, PartialEq, Eq, PartialOrd, Ord)]
 pub(crate) struct Change {
     pub(crate) name: String,
@@ -402,7 +412,7 @@ impl<'a> Index<'a> {
             // if this target is under an existing target, add it as a dep
             let mut nodes = targets_trie
                 .common_prefix_search(target_path_str)
-                .filter(|t: &String| t != &target.path)
+                .filter(|t: &String| t != &target.path && is_path_prefix(t, target_path_str))
                 .map(|t| dag.get_node_by_label(&t).map_err(MonorailError::from))
                 .collect::<Result<Vec<usize>, MonorailError>>()?;
 
@@ -410,8 +420,10 @@ impl<'a> Index<'a> {
                 for s in uses {
                     let uses_path_str = s.as_str();
                     uses_builder.push(uses_path_str);
-                    let matching_targets: Vec<String> =
-                        targets_trie.common_prefix_search(uses_path_str).collect();
+                    let matching_targets: Vec<String> = targets_trie
+                        .common_prefix_search(uses_path_str)
+                        .filter(|t: &String| is_path_prefix(t, uses_path_str))
+                        .collect();
                     use2targets.entry(s).or_default().push(target_path_str);
                     // a dependency has been established between this target and some
                     // number of targets, so we update the graph
